@@ -546,3 +546,5 @@ def check(ctx):
     ctx.run('C13.R5', 'decoders take count / buffer id from this completion\'s OpReturn', r5_decoders)
     ctx.run('C13.R6', 'OpenOptions builders set exactly the open(2) flags of their name', r6_open_options)
     ctx.run('C13.R7', 'socket option types carry the level/option numbers of their socket(7)/tcp(7) counterpart', r7_socket_options)
+    from . import c16
+    ctx.run('C13.R8', 'addresses returned by accept/recv_from/local_addr/peer_addr are decoded field by field the way they are encoded (C16.R1: same fields, same byte order, constructor argument order)', c16.r1_field_agreement)
